@@ -56,7 +56,7 @@ fn search(unit: &str, tag: &str, tier: &str) -> Option<Value> {
         "c11_decl" if tag.starts_with("C12") => c12::search_lex(tier),
         "c08_reduce" => c08::search(tag, tier),
         "c11_decl" | "c11_lex" | "c09_lexer" => c11::search(tag, tier),
-        "c10_grammar" => if tag.starts_with("C15") { c15::search(tag, tier) } else { c10::search(tag, tier) },
+        "c10_grammar" | "c10_validate" => if tag.starts_with("C15") { c15::search(tag, tier) } else { c10::search(tag, tier) },
         "c03_expect" => c03::search(tag, tier),
         "c17_firsts" | "c17_follows" | "c17_haspath" => c17::search(unit, tag, tier),
         "c16_new" | "c16_codec" => c16::search(tag, tier),
